@@ -1631,6 +1631,9 @@ fn g_via_when_evt(r: &mut Rng, depth: usize) -> (Sexp, Sexp, Sexp) {
 }
 
 fn gen_c01(r: &mut Rng, tier: Tier, n: usize) -> Vec<String> {
+    // `Rng::new(seed)` maps neighbouring seeds to shifted copies of one SplitMix64 stream; forking through the
+    // output mixer decorrelates them, so different seeds really are different samples
+    let r = &mut r.fork();
     let max_depth = if tier == Tier::Thorough { 10 } else { 6 };
     let mut out = Vec::with_capacity(n);
     for i in 0..n {
@@ -1649,6 +1652,7 @@ fn gen_c01(r: &mut Rng, tier: Tier, n: usize) -> Vec<String> {
 }
 
 fn gen_static(r: &mut Rng, _tier: Tier, n: usize) -> Vec<String> {
+    let r = &mut r.fork();
     let mut out = Vec::with_capacity(n);
     for i in 0..n {
         let k = i % N_STATIC;
